@@ -153,7 +153,8 @@ impl<'a, 'b, 'c> super::ResponseParser for ResponseParser<'a, 'b, 'c> {
 macro_rules! array_of {
     ($zreader:ident, $parse_elem:expr) => {{
         let n_elems = $zreader.read_array_len()?;
-        let mut array = Vec::with_capacity(n_elems);
+        // ~ the count is a hint only; see `codecs::MAX_PREALLOC`
+        let mut array = Vec::with_capacity(std::cmp::min(n_elems, crate::codecs::MAX_PREALLOC));
         for _ in 0..n_elems {
             array.push($parse_elem?);
         }
